@@ -1,6 +1,7 @@
 package main
 
 import (
+	"bytes"
 	"encoding/hex"
 	"fmt"
 	"runtime"
@@ -171,15 +172,38 @@ func c07ParseText(text string) (string, *ast.Chain) {
 	return c07Dump(ch), ch
 }
 
-// c07PrintChain runs printer.String: hex of the text, or err / panic.
+// c07Decoy is printed between obtaining a result of printer.Bytes and looking at it, so that a result
+// that aliases storage reused by a later print (a pooled or shared buffer) is seen corrupted.
+var c07Decoy = &ast.Chain{Statements: []ast.Statement{
+	{Name: "zzzzzzzzzzzzzzzzzzzzzzzz", Expr: ast.Shift{X: ast.Add{X: ast.Operand(7), Y: ast.Double{X: ast.Identifier("qqqqqqqqqqqqqqqqqqqqqqqqqqqqqqqq")}}, S: 99999}},
+	{Name: "", Expr: ast.Add{X: ast.Identifier("zzzzzzzzzzzzzzzzzzzzzzzz"), Y: ast.Add{X: ast.Operand(123456789), Y: ast.Operand(987654321)}}},
+}}
+
+// c07PrintChain runs every printing entry point (printer.Bytes, held across a second print;
+// printer.Fprint into a private buffer; printer.String): hex of the text, or err / panic. The text
+// reported is the one obtained from Bytes after the decoy print; a difference between the entry points
+// is reported as text of its own so that the driver judges it.
 func c07PrintChain(ch *ast.Chain) (field string, text string, ok bool) {
 	var s string
-	var err error
-	if p := safe(func() { s, err = printer.String(ch) }); p != "" {
+	var held []byte
+	var buf bytes.Buffer
+	var err, errb, errf error
+	if p := safe(func() {
+		held, errb = printer.Bytes(ch)
+		_, _ = printer.Bytes(c07Decoy)
+		errf = printer.Fprint(&buf, ch)
+		_, _ = printer.Bytes(c07Decoy)
+		s, err = printer.String(ch)
+	}); p != "" {
 		return "panic", "", false
 	}
-	if err != nil {
+	if err != nil || errb != nil || errf != nil {
 		return "err", "", false
+	}
+	if string(held) != s {
+		s = string(held)
+	} else if buf.String() != s {
+		s = buf.String()
 	}
 	return encHex(s), s, true
 }
